@@ -79,6 +79,7 @@ type Run struct {
 
 // Start reads the tier from argv[1] (or VERIF_TIER) and the seed from VERIF_SEED.
 func Start(id, level string) *Run {
+	supervise(id)
 	tier := os.Getenv("VERIF_TIER")
 	if len(os.Args) > 1 && (os.Args[1] == "quick" || os.Args[1] == "thorough") {
 		tier = os.Args[1]
